@@ -38,15 +38,15 @@ Internal == [native |-> <<>>, gnu |-> <<>>]          \* GetErrorPos() without an
 (***************************************************************************)
 (* EXPECT machine (asmerr.c): pending = pExpectErrors (head first)         *)
 (***************************************************************************)
-XInit == [pending |-> <<>>, inExp |-> FALSE, out |-> <<>>]
+XInit == [pending |-> <<>>, inExp |-> FALSE, out |-> <<>>, log |-> <<>>]      \* log: every message raised, hidden or not
 
 \* FindAndTakeExpectError: first entry with that number, unlinked
 TakeFirst(p, n) == LET i == FirstIdx(p, n) IN SubSeq(p, 1, i - 1) \o SubSeq(p, i + 1, Len(p))
 
 \* WrXErrorPos: an announced number is consumed silently, anything else is reported
 Report(x, num, pos) ==
-  IF num \in Range(x.pending) THEN [x EXCEPT !.pending = TakeFirst(x.pending, num)]
-  ELSE [x EXCEPT !.out = Append(@, [num |-> num, cls |-> ClassOf(num), pos |-> pos])]
+  IF num \in Range(x.pending) THEN [x EXCEPT !.pending = TakeFirst(x.pending, num), !.log = Append(@, [num |-> num, hid |-> TRUE])]
+  ELSE [x EXCEPT !.out = Append(@, [num |-> num, cls |-> ClassOf(num), pos |-> pos]), !.log = Append(@, [num |-> num, hid |-> FALSE])]
 
 RECURSIVE AddAll(_, _)        \* AddExpectError for every argument in turn: each new entry goes in front
 AddAll(p, nums) == IF nums = <<>> THEN p ELSE AddAll(<<Head(nums)>> \o p, Tail(nums))
@@ -101,7 +101,8 @@ AllDiags(flat) ==
 Raises(e, pass) == LET op == OpOf(e.l) IN op \in FaultOps /\ (op = "F1010" => pass > 1)
 \* index of the EXPECT that governs statement i (0: none)
 Governing(flat, i) ==
-  LET O == {j \in 1..(i - 1) : OpOf(flat[j].l) = "EXPECT" /\ \A k \in (j + 1)..(i - 1) : OpOf(flat[k].l) # "ENDEXPECT"}
+  LET O == {j \in 1..(i - 1) : OpOf(flat[j].l) = "EXPECT" /\ ArgsOf(flat[j].l) # <<>>
+                                /\ \A k \in (j + 1)..(i - 1) : ~(OpOf(flat[k].l) = "ENDEXPECT" /\ ArgsOf(flat[k].l) = <<>>)}
   IN IF O = {} THEN 0 ELSE CHOOSE j \in O : \A k \in O : k <= j
 WellFormedExpect(flat) ==
   /\ \A i \in DOMAIN flat : OpOf(flat[i].l) = "EXPECT" => Governing(flat, i) = 0 /\ ArgsOf(flat[i].l) # <<>>
@@ -146,15 +147,15 @@ Clean(i) == DB(N(i))
 \* k clean lines; line at carries j continuation breaks (physical lines are counted, not logical ones)
 ContLine(j) == <<SP, "DB", SP, "1">> \o Flatten([i \in 1..j |-> <<COMMA, CONT, SP, ToString(i + 1)>>])
 
-\* wrap the faulty line into loop / macro constructs, outermost first; `pre` clean body lines before it
-RECURSIVE Wrap(_, _, _, _)
-Wrap(kinds, d, pre, fault) ==
+\* wrap the faulty line into loop / macro constructs, outermost first; `pre` clean body lines before it, `post` after it
+RECURSIVE Wrap(_, _, _, _, _)
+Wrap(kinds, d, pre, post, fault) ==
   IF kinds = <<>> THEN [defs |-> <<>>, body |-> [i \in 1..pre |-> Clean(i)] \o <<fault>>]
-  ELSE LET inner == Wrap(Tail(kinds), d + 1, pre, fault)
+  ELSE LET inner == Wrap(Tail(kinds), d + 1, pre, post, fault)
            k == Head(kinds)
            x == "X" \o ToString(d)
            before == [i \in 1..pre |-> Clean(20 + i)]
-           after == <<Clean(9)>>
+           after == [i \in 1..post |-> Clean(9)]        \* post = 0: the nested construct / the faulty line ends the body
            in == before \o inner.body \o after
        IN CASE k = "REPT" -> [defs |-> inner.defs, body |-> <<L(<<>>, "REPT", N(2))>> \o in \o <<ENDM>>]
             [] k = "IRP" -> [defs |-> inner.defs, body |-> <<L(<<>>, "IRP", Cs(<<<<x>>, N(4), N(5)>>))>> \o in \o <<ENDM>>]
@@ -168,14 +169,14 @@ Wrap(kinds, d, pre, fault) ==
 
 Kinds == {"REPT", "IRP", "IRPN", "IRPC", "WHILE", "MACRO"}
 \* placement in the main file: `lead` clean lines (one of them continued over 1 + cont lines), then the construct nest
-MainProg(kinds, pre, lead, cont, fault) ==
-  LET w == Wrap(kinds, 1, pre, FLT(fault))
+MainProg(kinds, pre, post, lead, cont, fault) ==
+  LET w == Wrap(kinds, 1, pre, post, FLT(fault))
   IN [f \in {"a.asm"} |-> [i \in 1..lead |-> Clean(i)] \o (IF cont > 0 THEN <<ContLine(cont)>> ELSE <<>>) \o w.defs \o w.body \o <<Clean(8)>>]
 \* placement in an include file of depth dep (every level has lead lines, a continued line, then the include)
-InclFault(dep, kinds, pre, cont, fault) ==
+InclFault(dep, kinds, pre, post, cont, fault) ==
   LET inc(i) == "I" \o ToString(i) \o ".INC"
       arg(i) == <<"I" \o ToString(i), ".", "INC">>
-      w == Wrap(kinds, 1, pre, FLT(fault))
+      w == Wrap(kinds, 1, pre, post, FLT(fault))
       head(i) == [j \in 1..i |-> Clean(j)] \o (IF cont > 0 THEN <<ContLine(cont)>> ELSE <<>>)
   IN [f \in {"a.asm"} \cup {inc(i) : i \in 1..dep} |->
         IF f = "a.asm" THEN head(1) \o <<L(<<>>, "INCLUDE", arg(1)), Clean(7)>>
@@ -184,7 +185,7 @@ InclFault(dep, kinds, pre, cont, fault) ==
                 ELSE head(i) \o w.defs \o w.body \o <<Clean(8)>>]
 \* an include file read from inside a construct: only the file is named natively
 InclInside(kind, fault) ==
-  LET w == Wrap(<<kind>>, 1, 0, L(<<>>, "INCLUDE", <<"I1", ".", "INC">>))
+  LET w == Wrap(<<kind>>, 1, 0, 1, L(<<>>, "INCLUDE", <<"I1", ".", "INC">>))
   IN [f \in {"a.asm", "I1.INC"} |-> IF f = "a.asm" THEN <<Clean(1)>> \o w.defs \o w.body ELSE <<Clean(2), FLT(fault), Clean(3)>>]
 
 \* EXPECT blocks: announced numbers A (sequence), occurring faults O (sequence of fault ops)
